@@ -119,6 +119,12 @@ CHECKS = {
             'length. The for-all-models statement about lengths is part of R in C01/C02/C04.',
             'This check compares integers per design (enumeration over designs); the solver-decided part of the '
             'property is carried by C01/C02. Reference arithmetic in vf/ref.py is trusted.', '6 C16'),
+    'C18': (TV, 'A', 'enumerated construction histories; per block, projection inclusion both ways between the formula built '
+                     'with shared objects and the one built from fresh objects (SMT, closure form); mismatch verdicts compared',
+            'Scenarios of 2-5 blocks sharing factor, constraint and block objects are built in every admissible order; after '
+            'all are built each block must have the same trial count and exactly the same sequences as its fresh twin, and '
+            'the real mismatch checker must give the same verdicts on solver-generated sequences and single-cell changes.',
+            'Histories are enumerated (listed scenarios x orders); the set equality per block is a solver verdict.', '6 C18'),
     'C20': (OT, 'B+A', 'CrossHair symbolic execution of the real converters on experiments with unconstrained symbolic values '
                        'and symbolic shape; CSV through an in-memory open() read back with the csv module; key sets of real sequences',
             'experiments_to_tuples/dicts are confirmed over all paths to reproduce every value in design order for plain, '
